@@ -27,7 +27,7 @@ def body(c):
     c.add_tlc("M JsHtml (MaxLen=3, SeqExtra=1: writers, deviation triggers, tokenizer lemma)", m)
     # ---- mode G
     # (MaxLen, SeqExtra, slots) per generator run; quick goes one symbol deeper on one slot of each template shape
-    runs = ([(3, 1, ["endpoint", "title", "hvalue"]), (2, 1, ["subscription", "hname", "pname", "pvalue"])] if c.quick
+    runs = ([(3, 1, ["endpoint", "title"]), (2, 1, ["subscription", "hname", "hvalue", "pname", "pvalue"])] if c.quick
             else [(4, 2, SLOTS)])
     if c.replay:
         with open(c.replay) as f:
